@@ -65,7 +65,7 @@ PROPS = {
     "C18": {"modules": [P + "C18"], "streams": ["stream"]},
     "C19": {"modules": [P + "C19"], "streams": ["persist"]},
     "C20": {"modules": [P + "C20"], "streams": ["measures"]},
-    "C12": {"modules": [P + "C12Arcs", P + "C12Pdf"], "streams": ["knn"]},
+    "C12": {"modules": [P + "C12Arcs", P + "C12Pdf", P + "C12Refine"], "streams": ["knn"]},
     "C13": {"modules": [P + "C13", P + "C13Rel", P + "C13Refine", P + "C13Gen"], "streams": ["cluster"]},
     "C14": {"modules": [P + "C14", P + "C12Pdf"], "streams": ["knnpred"]},
     "C08": {"modules": [P + "C08", P + "C08Symm", P + "C08Self", P + "C08Metric", P + "C08Nonneg", P + "C08Defined"], "streams": ["dist"]},
